@@ -266,4 +266,5 @@ func main() {
 	bigDocs(r, rng.Fork())
 	files := histories(r, rng.Fork())
 	corruptions(r, rng.Fork(), files)
+	bytesStream(r, rng.Fork(), files)
 }
